@@ -71,9 +71,11 @@ class RegexMatch(Artifact):
         self.key = "R{}".format(id)
         self.id = id
         self.match = m
-        self.mstart = m.span(self.key)[0]
-        self.mend = m.span(self.key)[1]
         self._text = m.group(self.key)
+        self.mstart = m.span(self.key)[0]
+        # several patterns end in \\s*: the blank(s) after the expression are not part
+        # of its span
+        self.mend = m.span(self.key)[1] - (len(self._text) - len(self._text.rstrip()))
 
     def __str__(self) -> str:
         return "{}:{}".format(self.id, self._text)
